@@ -195,6 +195,10 @@ def sample_lines(path, k, rng):
     return rng.sample(lines, k)
 
 
+def sample_lines_list(lines, k, rng):
+    return list(lines) if len(lines) <= k else rng.sample(list(lines), k)
+
+
 def validate_machine(path):
     return tlc("Trace_HyMachine", "Trace_HyMachine.cfg", env={"TRACE": path}, workers=1, timeout=3400, xss="1g", xmx="4g", deque=True)
 
